@@ -33,6 +33,14 @@ IMPL_OPAQUE = {'to_rhs', 'Op::new', 'Op::to_trait_path', 'find_output_type', 'Op
                'to_ref_type', 'Op::from_path'}
 
 
+STRUCTURAL = []  # (key, what): failures of obligations that are facts about the macro's own code; the native differential decides what they mean
+
+
+def structural(out, key, what):
+    if key not in [k for k, _ in STRUCTURAL]:
+        STRUCTURAL.append((key, what))
+
+
 def unescape(s):
     """bytes of a MIR byte-string literal body"""
     out = bytearray()
@@ -132,7 +140,13 @@ def check_from_args_list(eng, obl, out, n):
             i, j = int(m.group(1)), int(m.group(2))
             seen.append((i, j))
             d = fields["dump"]
-            d = d if z3.is_expr(d) else z3.BoolVal(bool(d))
+            if isinstance(d, mx.Sym):
+                d = ex.bvar(mx.pstr(d.path))  # a flag copied as it is
+            elif not z3.is_expr(d):
+                if not isinstance(d, bool):
+                    out.inconclusive.append("fn=%s reason=dump flag is %r" % (tag, d))
+                    continue
+                d = z3.BoolVal(d)
             own = None
             for name in ex._vars_of(d):
                 if re.fullmatch(r"args_list\.\[%d\]\.items\.\[%d\]\.args\.<Some>\.\w+\.dump" % (i, j), name):
@@ -190,7 +204,7 @@ def check_apply_dump(eng, obl, out):
                 continue
             if verdict is False or "result.<Ok>.0" not in why:
                 obl.total += 1
-                out.violation("apply_dump|message", "-", "the dump message is not the label followed by the generated token stream printed with `{}`: %s" % why)
+                structural(out, "apply_dump|message", "the dump message is not the label followed by the generated token stream printed with `{}`: %s" % why)
                 continue
             if not errs or "self.span" not in errs[0][1][0]:
                 out.inconclusive.append("fn=%s reason=dump error not created at the entry's span" % tag)
@@ -255,7 +269,7 @@ def check_core(eng, obl, out, which, n):
                 # an obligation in solver terms: the path must be infeasible
                 m = obl.check_unsat(ex, tag + ":routing", list(r.pc), info=("core", problems, ex))
                 if m is not None:
-                    out.violation("core|%s|%s" % (which, problems[0][:60]), "-", "%s: %s" % (core, "; ".join(problems)[:400]))
+                    structural(out, "core|%s|%s" % (which, problems[0][:60]), "%s: %s" % (core, "; ".join(problems)[:400]))
         else:
             obl.discharged += 1
     if not stuck:
@@ -307,7 +321,7 @@ def check_item_impl(eng, obl, out):
             dv = [n for c in atoms for n in ex._vars_of(c)]
             if not dv:
                 obl.total += 1
-                out.violation("item_impl|dump-not-consulted", "-", "build_by_item_impl returns generated code on a path that never looks at `dump`: %s" % [str(c)[:60] for c in r.pc][-4:])
+                structural(out, "item_impl|dump-not-consulted", "build_by_item_impl returns generated code on a path that never looks at `dump`: %s" % [str(c)[:60] for c in r.pc][-4:])
                 continue
             obl.check_unsat(ex, tag + ":code-only-without-dump", list(r.pc) + [ex.bvar(dv[0])], info=("impl", "ok", ex), keep_smt=True)
             key = tuple(str(c) for c in r.pc if not dpat.search(str(c)))
@@ -328,11 +342,11 @@ def check_item_impl(eng, obl, out):
             continue
         ret = ex.summ(mx.State(), g["ok"].value.fields[0])
         if verdict is False:
-            out.violation("item_impl|message", "-", "the dump message of build_by_item_impl is not the label followed by the generated code printed with `{}`: %s" % why)
+            structural(out, "item_impl|message", "the dump message of build_by_item_impl is not the label followed by the generated code printed with `{}`: %s" % why)
         elif ret.split("opaque:", 1)[-1] not in why:
-            out.violation("item_impl|message-source", "-", "the dump message prints %s, the path without dump returns %s" % (why[:80], ret[:80]))
+            structural(out, "item_impl|message-source", "the dump message prints %s, the path without dump returns %s" % (why[:80], ret[:80]))
         elif gen_events(rd) != gen_events(g["ok"]):
-            out.violation("item_impl|different-code", "-", "with dump the stream is built by other steps than without: %s vs %s" % (
+            structural(out, "item_impl|different-code", "with dump the stream is built by other steps than without: %s vs %s" % (
                 [e[0] for e in gen_events(rd)], [e[0] for e in gen_events(g["ok"])]))
         else:
             obl.discharged += 1
@@ -533,16 +547,22 @@ def run(tier):
         elif info and info[0] == "flags":
             replay_flags(out, label, model, info)
         elif info and info[0] == "apply":
-            out.violation("apply_dump|%s" % info[1].split(":")[0], "-", "apply_dump: what is returned (%s) is returned under another condition than documented, e.g. result %s, dump flag %s" % (
+            structural(out, "apply_dump|%s" % info[1].split(":")[0], "apply_dump: what is returned (%s) is returned under another condition than documented, e.g. result %s, dump flag %s" % (
                 info[1], "Ok" if z3.is_true(model.eval(info[2].ivar("disc(result)", 0, 1) == 0, model_completion=True)) else "Err",
                 model.eval(info[2].bvar("self.dump"), model_completion=True)))
         elif info and info[0] == "impl":
-            if any(v[0] == "item_impl|code-with-dump" for v in out.violations):
-                continue
-            out.violation("item_impl|code-with-dump", "-", "build_by_item_impl can return generated code although `dump` is set")
+            structural(out, "item_impl|code-with-dump", "build_by_item_impl can return generated code although `dump` is set")
     out.inconclusive[:] = list(dict.fromkeys(out.inconclusive))
     checked, skipped = native_differential(out, tier, seed)
     log("[C19] native differential: %d input pairs compared, %d skipped" % (checked, skipped))
+    # a structural failure alone is no alarm: the code may only have been restructured. If the behaviour it stands for is wrong, the differential above
+    # (or the replayed flag models) has a violation with a native replay; otherwise it is reported as inconclusive
+    for key, what in STRUCTURAL:
+        if out.violations:
+            log("[C19] structural obligation failed as well: %s: %s" % (key, what[:200]))
+        else:
+            out.inconclusive.append("structure not recognised: %s: %s [%d native dump comparisons behave as documented]" % (key, what[:300], checked))
+    del STRUCTURAL[:]
     if tier == "thorough":
         e3.cross_check_solvers(obl, out)
     return e3.finish(
